@@ -3485,7 +3485,7 @@ void ZSTDv05_findFrameSizeInfoLegacy(const void *src, size_t srcSize, size_t* cS
 {
     const BYTE* ip = (const BYTE*)src;
     size_t remainingSize = srcSize;
-    size_t nbBlocks = 0;
+    unsigned long long bound = 0;
     blockProperties_t blockProperties;
 
     /* Frame Header */
@@ -3519,11 +3519,12 @@ void ZSTDv05_findFrameSizeInfoLegacy(const void *src, size_t srcSize, size_t* cS
 
         ip += cBlockSize;
         remainingSize -= cBlockSize;
-        nbBlocks++;
+        /* an uncompressed block is copied whatever its size (up to the 19 bits of the size field) */
+        bound += ((blockProperties.blockType == bt_raw) && (cBlockSize > BLOCKSIZE)) ? cBlockSize : BLOCKSIZE;
     }
 
     *cSize = ip - (const BYTE*)src;
-    *dBound = nbBlocks * BLOCKSIZE;
+    *dBound = bound;
 }
 
 /* ******************************
